@@ -109,12 +109,19 @@ def gen(rng, n):
             pk = rng.choice(['f', 'f', 'd', 'l'])
             nodes += scen.entry(td, name, pathv, '2024-01-01T00:00:00', pk, data=(rng.choice(['/canary/file', 'nowhere', '../gone']) if pk == 'l' else None))
             ents.append({'td': td, 'name': name, 'full': full})
+        # neighbours without a usable Path: they can never match, they must stay, and they must not stop the run (C19)
+        mal = []
+        for k in range(rng.choice([0, 0, 0, 1, 2])):
+            td, vol, kind = rng.choice(dirs)
+            mk = rng.choice(['empty', 'truncated', 'binary', 'nonutf8', 'dir_info', 'no_path'])
+            nodes += scen.malformed(rng, td, mk, 'x%d' % k)
+            mal.append({'td': td, 'name': 'malx%d' % k, 'kind': mk})
         pat = rng.choice(PATS)
         if rng.random() < 0.2 and ents:
             pat = rng.choice(ents)['full']
         scn = lay.scenario([{'cmd': 'rm', 'argv': [pat], 'listdir': rng.choice(['sorted', 'reverse'])}], extra=nodes + scen.canary())
         scns.append(scn)
-        metas.append({'pat': pat, 'ents': ents})
+        metas.append({'pat': pat, 'ents': ents, 'mal': mal})
     return scns, metas
 
 
@@ -143,7 +150,14 @@ def judge(run, scn, meta, res, section='state'):
         if not want and not intact:
             run.fail('oracle', 'an entry whose name does not match the pattern was removed or altered', dict(case, entry=esc(e['full'])),
                      key='nonmatch-removed', section=section)
-    run.nontriv(('rm', esc(pat), nmatch, len(meta['ents'])))
+    for m in meta.get('mal') or []:
+        ib, ia = engine.entries_of(before, m['td']).get(m['name']), engine.entries_of(after, m['td']).get(m['name'])
+        if ib != ia:
+            run.fail('oracle', 'an entry without a readable Path was removed or altered by trash-rm', dict(case, entry=m), key='pathless-removed',
+                     section=section)
+    if o['exc'] is not None:
+        run.fail('oracle', 'trash-rm ended with an uncaught exception', dict(case, exc=o['exc']), key='rm-traceback', section=section)
+    run.nontriv(('rm', esc(pat), nmatch, len(meta['ents']), tuple(sorted(m['kind'] for m in meta.get('mal') or []))))
 
 
 def decision_jobs(scn, res):
